@@ -14,6 +14,7 @@ package main
 
 import (
 	"fmt"
+	"os"
 	"regexp"
 	"strings"
 
@@ -133,4 +134,32 @@ func reportIOBrackets(c *core.Ctx, fn *c08fn, st *ioBracketStats) {
 	c.Check(len(bad) == 0, "G9.bracket", "generated C "+fn.cname,
 		"a block that re-points a derived I/O bound (io0/io1/io2: the io_bind, io_limit and io_forget_history lowerings) saves it in o_K_<bound> first and restores it from there before the block ends, so that can_undo_byte, history distances and short-read tests after the block are taken against the caller's buffer again",
 		st.vars-before, strings.Join(bad, "\n"))
+}
+
+// runIOBrackets evaluates G9.bracket over the given packages (used by C03,
+// where a bound that is not put back shows up as an "internal error" status on
+// a valid input; C08 evaluates the same rule inside its own function loop).
+func runIOBrackets(c *core.Ctx, pkgs []*WPkg) {
+	st := ioBracketStats{}
+	for _, p := range pkgs {
+		src, err := os.ReadFile(p.CPath)
+		if err != nil {
+			c.Infra("%v", err)
+		}
+		cf := core.CParseFile(p.CPath, string(src))
+		for _, f := range p.Funcs {
+			cname := p.funcCName(f)
+			cfn := cf.ByNam[cname]
+			if cfn == nil {
+				continue
+			}
+			stmts, perr := core.CParseBody(cfn.Body)
+			if perr != nil {
+				c.Undecided("G0.parse", "generated C "+cname, "function body parses into a statement tree", perr.Error())
+				continue
+			}
+			reportIOBrackets(c, &c08fn{p, f, cname, cfn, stmts}, &st)
+		}
+	}
+	c.Floor("G9", "saved derived I/O bounds (io_bind / io_limit / io_forget_history blocks)", st.vars, 20)
 }
